@@ -53,13 +53,14 @@ let check_iter (line:string) : unit =
            | 'k' ->
              let m = n_of_u64s (String.sub op 1 (String.length op - 1)) in
              g := remove_mask !g m; nontrivial := true;
-             removed := List.filter (fun (_,d,_) -> N.testbit m (n_of_int d)) baseline @ !removed
+             (* a move already yielded before the removal stays yielded *)
+             removed := List.filter (fun ((_,d,_) as mv) -> N.testbit m (n_of_int d) && not (List.mem mv !yielded)) baseline @ !removed
            | 'r' ->
              let (s,d,_) = triple_of_slash (String.sub op 1 (String.length op - 1)) in
              let (found, g') = remove_move !g (n_of_int s) (n_of_int d) in
              g := g'; nontrivial := true;
              if (if found then "1" else "0") <> res then mismatch "iter_remove_ret" (Printf.sprintf "%s remove_move %d,%d impl=%s" ctx s d res);
-             removed := List.filter (fun (s',d',_) -> s' = s && d' = d) baseline @ !removed
+             removed := List.filter (fun ((s',d',_) as mv) -> s' = s && d' = d && not (List.mem mv !yielded)) baseline @ !removed
            | 'x' ->
              (match String.split_on_char ',' res with
               | [l; sh; mv] ->
